@@ -3,7 +3,7 @@
 spec/StepGen.tla is the closed-form model; MC_StepGen enumerates option combinations and emits,
 per case, the count, the exponents and the symbolic base/nominal/ratio terms.  This driver builds
 the real generator with exactly those options and compares `list(gen(x, method, n, order))`."""
-import math, random, collections
+import math, random, collections, itertools
 import numpy as np
 import vlib
 
@@ -56,9 +56,12 @@ def expected(rec, x):
 
 def compare(rec, gen, x):
     try:
-        got = list(gen(x, rec['m'], rec['n'], rec['o']))
+        with vlib.time_limit(30):
+            got = list(itertools.islice(gen(x, rec['m'], rec['n'], rec['o']), 5001))      # never trust the sequence to end
     except Exception as ex:
         return 'generator raised %r' % (ex,)
+    if len(got) > 5000:
+        return 'more than 5000 steps generated, model says %d' % rec['count']
     want, ratio = expected(rec, x)
     if rec['count'] == 0 or (np.asarray(want[0]) == 0).any() if want else False:
         want = [w for w in want if (np.abs(w) > 0).all()]
@@ -134,7 +137,7 @@ def work_arraybase(item):
         first = None
         for call in range(3):
             try:
-                got = [np.array(g, copy=True) for g in gen(x, rec['m'], rec['n'], rec['o'])]
+                got = [np.array(g, copy=True) for g in itertools.islice(gen(x, rec['m'], rec['n'], rec['o']), 5001)]
             except Exception as ex:
                 bad.append((rec, 'array base_step %s: call %d raised %r' % (mult, call + 1, ex)))
                 break
